@@ -36,6 +36,7 @@ type c09Op struct {
 	ES6      bool   `json:"es6,omitempty"`
 	Seed     uint64 `json:"seed,omitempty"` // compile: seed of the independent bundle
 	Bad      bool   `json:"bad,omitempty"`  // compile / parse: the (first) file is damaged first
+	Ill      bool   `json:"ill,omitempty"`  // render: Data indexes the ill-typed variants (evidence only)
 }
 
 type c09Sched struct {
@@ -458,6 +459,11 @@ func c09Run(cs *c09One, replay bool) c09Outcome {
 			for _, x := range cs.Bundle.Data {
 				d = append(d, x.Map())
 			}
+			// after the well-typed data sets, their ill-typed variants: renders with them fail at run time,
+			// so the error paths (position lookup, message building) run concurrently too
+			for i, x := range cs.Bundle.Data {
+				d = append(d, illTyped(x, i).Map())
+			}
 			for _, x := range cs.Bundle.IJ {
 				ij = append(ij, x.Map())
 			}
@@ -720,7 +726,12 @@ func c09Generate(c *wk.Ctx, run, i int) *c09One {
 			}
 			switch {
 			case x < 50:
-				ops = append(ops, c09Op{Op: "render", Template: e.Template, Data: e.Data, IJ: e.IJ, Cat: useCat && r.Intn(4) != 0})
+				op := c09Op{Op: "render", Template: e.Template, Data: e.Data, IJ: e.IJ, Cat: useCat && r.Intn(4) != 0}
+				if theme == 5 && r.Intn(2) == 0 || r.Intn(8) == 0 {
+					op.Data += len(gc.Data) // the ill-typed variant of the data set: a render that fails
+					op.Ill = true
+				}
+				ops = append(ops, op)
 			case x < 62:
 				ops = append(ops, c09Op{Op: "render-shared", Template: e.Template, Data: e.Data, IJ: e.IJ, Cat: useCat})
 			case x < 68:
@@ -861,6 +872,9 @@ func C09(c *wk.Ctx) {
 					u.Counters["op_"+op.Op]++
 					if op.Bad {
 						u.Counters["op_"+op.Op+"_malformed"]++
+					}
+					if op.Ill {
+						u.Counters["op_render_illtyped"]++
 					}
 					if op.Cat {
 						u.Counters["op_with_catalogue"]++
